@@ -72,15 +72,31 @@ fn rac_comment_frontends() {
         }
         let _ = tx.send(Ok((cases, nontrivial)));
     });
-    match rx.recv_timeout(std::time::Duration::from_secs(600)) {
-        Ok(Ok((cases, nontrivial))) => println!("RAC-OK comment_frontends cases={} nontrivial={} bound=6-languages,<=3-of-16-fragments", cases, nontrivial),
-        Ok(Err(cex)) => {
-            println!("RAC-CEX comment_frontends {}", cex);
-            panic!("comment front-end contract violated");
-        }
-        Err(_) => {
-            println!("RAC-CEX comment_frontends {{\"text\": {:?}, \"why\": \"did not terminate within 600 s\"}}", current.lock().unwrap().clone());
-            panic!("comment front-end hangs");
+    // progress watchdog: every input takes milliseconds; one input that is still being processed after
+    // 20 s counts as "does not terminate" (C01: never hangs)
+    let mut last = String::new();
+    let mut since = std::time::Instant::now();
+    loop {
+        match rx.recv_timeout(std::time::Duration::from_secs(1)) {
+            Ok(Ok((cases, nontrivial))) => {
+                println!("RAC-OK comment_frontends cases={} nontrivial={} bound=6-languages,<=3-of-16-fragments", cases, nontrivial);
+                return;
+            }
+            Ok(Err(cex)) => {
+                println!("RAC-CEX comment_frontends {}", cex);
+                panic!("comment front-end contract violated");
+            }
+            Err(mpsc::RecvTimeoutError::Timeout) => {
+                let c = current.lock().unwrap().clone();
+                if c != last {
+                    last = c;
+                    since = std::time::Instant::now();
+                } else if since.elapsed().as_secs() >= 20 {
+                    println!("RAC-CEX comment_frontends {{\"text\": {:?}, \"why\": \"building the document did not terminate within 20 s (other inputs take milliseconds)\"}}", last);
+                    panic!("comment front-end hangs");
+                }
+            }
+            Err(mpsc::RecvTimeoutError::Disconnected) => panic!("worker died"),
         }
     }
 }
